@@ -1,0 +1,98 @@
+//go:build verif
+
+package stats
+
+// Contracts for govc (see /verif/DESIGN.md). Comment-only file: contributes no code.
+
+// ---- C19: gauges never negative, counters conserved (total = success + failure) at collector scope
+
+//@ spec func edOK(d *endpointData) bool = d != nil && d.activeConnections >= 0 && counter(d.totalRequests) == counter(d.successfulRequests) + counter(d.failedRequests)
+
+//@ type Collector
+//@   repinv self.endpoints != nil
+//@   repinv counter(self.totalRequests) == counter(self.successfulRequests) + counter(self.failedRequests)
+//@   repinv forall k string :: xhas(self.endpoints, k) ==> edOK(xget(self.endpoints, k))
+//@   repinv self.translatorCollector != nil && self.translatorCollector.translators != nil && self.translatorCollector.translators != self.endpoints
+//@   repinv forall k string :: xhas(self.translatorCollector.translators, k) ==> tdOK(xget(self.translatorCollector.translators, k))
+
+//@ func (c *Collector) getOrInitEndpoint
+//@   inline
+
+//@ func (c *Collector) RecordConnection
+//@   property C06 C19
+//@   requires endpoint != nil
+//@   modifies c.endpoints[all], endpointData.activeConnections
+//@   loop 1 invariant true
+//@   ensures xhas(c.endpoints, endpoint.URLString)
+//@   ensures old(xhas(c.endpoints, endpoint.URLString)) && delta > 0 ==> xget(c.endpoints, endpoint.URLString).activeConnections == old(xget(c.endpoints, endpoint.URLString).activeConnections) + delta
+//@   ensures old(xhas(c.endpoints, endpoint.URLString)) && delta < 0 ==> xget(c.endpoints, endpoint.URLString).activeConnections == max(0, old(xget(c.endpoints, endpoint.URLString).activeConnections) + delta)
+//@   ensures !old(xhas(c.endpoints, endpoint.URLString)) ==> xget(c.endpoints, endpoint.URLString).activeConnections == max(0, delta)
+//@   ensures xget(c.endpoints, endpoint.URLString).activeConnections >= 0
+
+//@ func (c *Collector) GetConnectionStats
+//@   property C06 C19
+//@   refines ports.StatsCollector.GetConnectionStats
+//@   loop 101 invariant stats != nil && fresh(stats) && (forall k string :: stats[k] >= 0)
+//@   ensures res != nil && fresh(res)
+//@   ensures forall k string :: res[k] >= 0
+
+//@ func (c *Collector) updateLatencyBounds
+//@   property C19
+//@   requires data != nil
+//@   modifies data.minLatency, data.maxLatency
+//@   loop 1 invariant true
+//@   loop 2 invariant true
+//@   ensures true
+
+//@ func (c *Collector) updateEndpointStats
+//@   property C19
+//@   requires endpoint != nil
+//@   modifies c.endpoints[all], endpointData.lastUsed, endpointData.minLatency, endpointData.maxLatency, endpointData.totalRequests, endpointData.successfulRequests, endpointData.failedRequests, endpointData.totalBytes, endpointData.totalLatency
+//@   ensures xhas(c.endpoints, endpoint.URLString)
+//@   ensures counter(c.totalRequests) == old(counter(c.totalRequests)) && counter(c.successfulRequests) == old(counter(c.successfulRequests)) && counter(c.failedRequests) == old(counter(c.failedRequests))
+//@   ensures old(xhas(c.endpoints, endpoint.URLString)) ==> counter(xget(c.endpoints, endpoint.URLString).totalRequests) == old(counter(xget(c.endpoints, endpoint.URLString).totalRequests)) + 1
+//@   ensures old(xhas(c.endpoints, endpoint.URLString)) && status == "success" ==> counter(xget(c.endpoints, endpoint.URLString).successfulRequests) == old(counter(xget(c.endpoints, endpoint.URLString).successfulRequests)) + 1 && counter(xget(c.endpoints, endpoint.URLString).failedRequests) == old(counter(xget(c.endpoints, endpoint.URLString).failedRequests))
+//@   ensures old(xhas(c.endpoints, endpoint.URLString)) && status != "success" ==> counter(xget(c.endpoints, endpoint.URLString).failedRequests) == old(counter(xget(c.endpoints, endpoint.URLString).failedRequests)) + 1 && counter(xget(c.endpoints, endpoint.URLString).successfulRequests) == old(counter(xget(c.endpoints, endpoint.URLString).successfulRequests))
+//@   ensures !old(xhas(c.endpoints, endpoint.URLString)) ==> counter(xget(c.endpoints, endpoint.URLString).totalRequests) == 1
+
+// cleanup only evicts whole endpoint entries; it never touches a counter
+//@ func (c *Collector) cleanup
+//@   property C19
+//@   trusted frame assumed: removes entries from c.endpoints only (closures over a local struct slice and sort.Slice are outside the modelled subset)
+//@   modifies c.endpoints[all]
+//@   ensures forall k string :: xhas(c.endpoints, k) ==> old(xhas(c.endpoints, k)) && xget(c.endpoints, k) == old(xget(c.endpoints, k))
+
+//@ func (c *Collector) tryCleanup
+//@   property C19
+//@   modifies c.endpoints[all], c.lastCleanup
+//@   ensures forall k string :: xhas(c.endpoints, k) ==> old(xhas(c.endpoints, k)) && xget(c.endpoints, k) == old(xget(c.endpoints, k))
+
+//@ func (c *Collector) RecordRequest
+//@   property C19
+//@   modifies c.endpoints[all], c.lastCleanup, endpointData.lastUsed, endpointData.minLatency, endpointData.maxLatency, endpointData.totalRequests, endpointData.successfulRequests, endpointData.failedRequests, endpointData.totalBytes, endpointData.totalLatency, c.totalRequests, c.successfulRequests, c.failedRequests, c.totalLatency
+//@   ensures counter(c.totalRequests) == old(counter(c.totalRequests)) + 1
+//@   ensures status == "success" ==> counter(c.successfulRequests) == old(counter(c.successfulRequests)) + 1 && counter(c.failedRequests) == old(counter(c.failedRequests))
+//@   ensures status != "success" ==> counter(c.failedRequests) == old(counter(c.failedRequests)) + 1 && counter(c.successfulRequests) == old(counter(c.successfulRequests))
+
+// ---- translator scope
+//@ spec func tdOK(d *translatorData) bool = d != nil && counter(d.totalRequests) == counter(d.successfulRequests) + counter(d.failedRequests) && counter(d.totalRequests) == counter(d.streamingRequests) + counter(d.nonStreamingRequests)
+//@ type TranslatorCollector
+//@   repinv self.translators != nil
+//@   repinv forall k string :: xhas(self.translators, k) ==> tdOK(xget(self.translators, k))
+
+//@ func (tc *TranslatorCollector) getOrInit
+//@   inline
+
+//@ func (tc *TranslatorCollector) Record
+//@   property C19
+//@   modifies tc.translators[all], translatorData.totalRequests, translatorData.successfulRequests, translatorData.failedRequests, translatorData.passthroughRequests, translatorData.translationRequests, translatorData.streamingRequests, translatorData.nonStreamingRequests, translatorData.fallbackNoCompatibleEndpoints, translatorData.fallbackTranslatorDoesNotSupportPassthrough, translatorData.fallbackCannotPassthrough, translatorData.totalLatency
+//@   ensures xhas(tc.translators, event.TranslatorName)
+//@   ensures old(xhas(tc.translators, event.TranslatorName)) ==> counter(xget(tc.translators, event.TranslatorName).totalRequests) == old(counter(xget(tc.translators, event.TranslatorName).totalRequests)) + 1
+//@   ensures old(xhas(tc.translators, event.TranslatorName)) && event.Success ==> counter(xget(tc.translators, event.TranslatorName).successfulRequests) == old(counter(xget(tc.translators, event.TranslatorName).successfulRequests)) + 1 && counter(xget(tc.translators, event.TranslatorName).failedRequests) == old(counter(xget(tc.translators, event.TranslatorName).failedRequests))
+//@   ensures old(xhas(tc.translators, event.TranslatorName)) && !event.Success ==> counter(xget(tc.translators, event.TranslatorName).failedRequests) == old(counter(xget(tc.translators, event.TranslatorName).failedRequests)) + 1 && counter(xget(tc.translators, event.TranslatorName).successfulRequests) == old(counter(xget(tc.translators, event.TranslatorName).successfulRequests))
+//@   ensures !old(xhas(tc.translators, event.TranslatorName)) ==> counter(xget(tc.translators, event.TranslatorName).totalRequests) == 1
+
+//@ func (c *Collector) RecordTranslatorRequest
+//@   property C19
+//@   modifies c.translatorCollector.translators[all], translatorData.totalRequests, translatorData.successfulRequests, translatorData.failedRequests, translatorData.passthroughRequests, translatorData.translationRequests, translatorData.streamingRequests, translatorData.nonStreamingRequests, translatorData.fallbackNoCompatibleEndpoints, translatorData.fallbackTranslatorDoesNotSupportPassthrough, translatorData.fallbackCannotPassthrough, translatorData.totalLatency
+//@   ensures old(xhas(c.translatorCollector.translators, event.TranslatorName)) ==> counter(xget(c.translatorCollector.translators, event.TranslatorName).totalRequests) == old(counter(xget(c.translatorCollector.translators, event.TranslatorName).totalRequests)) + 1
